@@ -9,6 +9,7 @@ import Driver.C07
 import Driver.C09
 import Driver.C14
 import Driver.C19
+import Driver.C10
 
 open Driver Relic.Model
 
@@ -19,6 +20,7 @@ structure Conf where
   extra : List (String × String) := []
   fp : Option C02.Env := none
   ep : Option C03.Env := none
+  fpx : Option C10.Env := none
 
 def parseCfg (toks : List String) : Conf :=
   toks.foldl (fun c t =>
@@ -38,7 +40,9 @@ def dispatch (c : Conf) (op : String) (args : List String) (got : String) : Opti
     | some e => C02.handle e op args got
     | none => none) <|> (match c.ep with
     | some e => C03.handle e c.w op args got
-    | none => none) <|> (C07.handle e01.cfg op args) <|> (C09.handle c.w c.size c.digs op args got) <|> (C14.handle op args) <|> (C15.handle c.w c.size op args got) <|> (C19.handle latch op args)
+    | none => none) <|> (C07.handle e01.cfg op args) <|> (C09.handle c.w c.size c.digs op args got) <|> (C14.handle op args) <|> (C15.handle c.w c.size op args got) <|> (C19.handle latch op args) <|> (match c.fpx with
+    | some e => C10.handle e op args got
+    | none => none)
 
 def processLine (c : Conf) (line : String) : String :=
   match line.splitOn " => " with
@@ -84,6 +88,19 @@ partial def loop (h : IO.FS.Stream) (out : IO.FS.Stream) (c : Conf) : IO Unit :=
       | none =>
         out.putStrLn (if got == "err" then "ok ep_param-rejected" else "FAIL S model=[] spec=[parsable ep_param] got=[" ++ got ++ "]")
         loop h out { c with ep := none }
+    | _ => out.putStrLn "skip"; loop h out c
+  else if line.startsWith "fpx_param " then
+    -- the running library reports the tower constants; their defining properties are checked here
+    match line.splitOn " => " with
+    | [_, got] =>
+      match C10.parseEnv got with
+      | some e =>
+        let bad := C10.checkParam e
+        out.putStrLn (if bad.isEmpty then "ok fpx_param" else "FAIL S model=[] spec=[" ++ String.intercalate ";" bad ++ "] got=[" ++ got ++ "]")
+        loop h out { c with fpx := some e }
+      | none =>
+        out.putStrLn (if got == "err" then "ok fpx_param-rejected" else "FAIL S model=[] spec=[parsable fpx_param] got=[" ++ got ++ "]")
+        loop h out { c with fpx := none }
     | _ => out.putStrLn "skip"; loop h out c
   else if line.startsWith "fp_param " then
     -- the running library reports the active field; the derived constants are checked here
